@@ -152,6 +152,11 @@ pub struct Model {
     pub any_noneq_cutoff: bool,
     pub memo_live: BTreeMap<(usize, i64), Hid>,
     pub memo_srcs: Vec<Hid>,
+    pub memo_held: Vec<bool>,
+    /// nodes reachable from the driver's handles when the current stabilise started
+    pub reach_start: BTreeSet<Hid>,
+    pub nodes_at_round_start: usize,
+    pub leak_checks: u64,
     pub current_fold: Option<Hid>,
     pub shape: crate::rng::Fnv,
 }
@@ -191,6 +196,10 @@ impl Model {
             any_noneq_cutoff: false,
             memo_live: BTreeMap::new(),
             memo_srcs: vec![],
+            memo_held: vec![],
+            reach_start: BTreeSet::new(),
+            nodes_at_round_start: 0,
+            leak_checks: 0,
             current_fold: None,
             shape: crate::rng::Fnv::new(),
         }
@@ -230,6 +239,10 @@ impl Model {
         match &n.rk {
             RK::MapRef { src, proj } => match self.val(*src) {
                 Some(MV::P(a, b)) => Some(MV::I(if *proj == 0 { a } else { b })),
+                _ => None,
+            },
+            RK::MapRefQ { src } => match self.val(*src) {
+                Some(MV::Q(a, b, _)) => Some(MV::P(a, b)),
                 _ => None,
             },
             _ => n.value,
@@ -413,6 +426,14 @@ impl Model {
                 MV::P(a, b) => MV::I(if *proj == 0 { a } else { b }),
                 _ => return None,
             },
+            RK::ZipQ { a, b } => match self.scratch(*a, depth + 1)? {
+                MV::P(x, y) => MV::Q(x, y, i(*b)?),
+                _ => return None,
+            },
+            RK::MapRefQ { src } => match self.scratch(*src, depth + 1)? {
+                MV::Q(a, b, _) => MV::P(a, b),
+                _ => return None,
+            },
             RK::MapWithOld { src, f } => MV::I(f.ap(i(*src)?)),
             RK::DependOn { a, b } => {
                 self.scratch(*b, depth + 1)?;
@@ -484,5 +505,76 @@ impl Model {
                 }
             }
         })
+    }
+}
+
+impl Model {
+    /// Nodes kept alive by the driver's handles along the documented ownership edges:
+    /// node -> inputs; bind -> input, current right-hand side, the nodes and memoised functions
+    /// its closure captured; observer handle -> node; var handle -> watch node; memoised
+    /// function -> the node its closure captured. (Parent pointers, observer registrations on
+    /// nodes, scope lists and memo tables are weak.)
+    pub fn reachable(&self) -> BTreeSet<Hid> {
+        let mut roots: Vec<Hid> = vec![];
+        for (h, n) in self.nodes.iter().enumerate() {
+            if n.held {
+                roots.push(h);
+            }
+        }
+        for v in &self.vars {
+            if v.handle {
+                roots.push(v.hid);
+            }
+        }
+        for o in &self.obs {
+            if o.clones.iter().any(|c| *c) {
+                roots.push(o.hid);
+            }
+        }
+        for (m, held) in self.memo_held.iter().enumerate() {
+            if *held {
+                roots.push(self.memo_srcs[m]);
+            }
+        }
+        let mut seen = BTreeSet::new();
+        let mut stack = roots;
+        while let Some(h) = stack.pop() {
+            if !seen.insert(h) {
+                continue;
+            }
+            let n = &self.nodes[h];
+            for c in crate::world::rk_inputs(&n.rk) {
+                stack.push(c);
+            }
+            if let RK::Bind { memos, .. } = &n.rk {
+                for m in memos {
+                    stack.push(self.memo_srcs[*m]);
+                }
+                if let Some(r) = n.rhs {
+                    stack.push(r);
+                }
+            }
+        }
+        seen
+    }
+
+    /// C12: after a stabilise, a node that no handle could reach when the stabilise started
+    /// (and none can reach now) must have been released.
+    pub(crate) fn on_alive(&mut self, at: usize, hids: &[Hid]) {
+        if self.poisoned || !self.state_alive {
+            return;
+        }
+        let now = self.reachable();
+        self.leak_checks += 1;
+        for h in hids {
+            if *h < self.nodes_at_round_start && !self.reach_start.contains(h) && !now.contains(h) {
+                self.violations.push(Violation {
+                    property: "C12",
+                    rule: "node-not-released",
+                    at,
+                    detail: format!("node {} ({}) is still alive after a stabilise although no handle has been able to reach it since before that stabilise started", h, crate::model_step::kind_name(&self.nodes[*h].rk)),
+                });
+            }
+        }
     }
 }
